@@ -1,8 +1,9 @@
 \* C08 histories, negative controls: c08.py sets MemoMode = "value" / "keyvalue" or RejectStoresEmpty = TRUE
-\* and requires HistoryFree violated; MemoMode = "classkeyvalue" (a harmless memo) must hold
+\* and requires HistoryFree violated
 CONSTANTS
   Alphabet = {}
   MaxLen = 0
+  LemmaLen = 0
   ZoneWhatIf = FALSE
   Emit = FALSE
   NoIndentRule = FALSE
